@@ -9,6 +9,8 @@ context (vf/sched.py) with
       with more queue entries than the work queue holds (the filler is still
       blocked in put() when the worker dies) and a single worker (the last
       running worker dies)
+  (2b) a death / a raising callback under EVERY single deviation from the default
+      run-to-block schedule (the monitor wakes early, a sibling runs first, ...)
   (3) conformance: one real spawned run in which a worker calls os._exit(3) must
       end like its simulated replay (an exception, same type)
 Oracle (raise): parallel_add returns; HLL registers contain every non-failed
@@ -40,7 +42,8 @@ def exec_raise(case):
     names = tuple(case.get("names", NAMES))
     ref = P.Reference(names)
     res = P.run_sim(items, case["w"], names, assign=case["assign"],
-                    kwargs={"plan": plan, "state": {}}, want_objects=True)
+                    kwargs={"plan": plan, "state": {}}, want_objects=True,
+                    choices=case.get("choices", ()))
     if res["error"] is not None:
         probs = [f"parallel_add did not return although only callbacks raised: "
                  f"{res['error'][0]}: {res['error'][1]}"]
@@ -58,7 +61,7 @@ def exec_death(case):
     names = tuple(case.get("names", NAMES))
     res = P.run_sim(items, case["w"], names, assign=case["assign"],
                     kwargs={"die": (case["die_worker"], case["die_at"], "sim"), "state": {}},
-                    want_objects=False)
+                    want_objects=False, choices=case.get("choices", ()))
     if case["die_worker"] == -1:
         died = 3 in res["worker_exit"].values()
     else:
@@ -109,6 +112,30 @@ def task(arg):
                         out.append((case, f"k={k} w={w} assign={list(assign)}: {probs[0]}"))
     return dict(kind=kind, k=k, w=w, executions=n, faulty=nt, outcomes=sorted(map(str, outcomes))[:8],
                 n_outcomes=len(outcomes)), out
+
+
+def deviation_task(arg):
+    """A death (or a raising callback) under every single deviation from run-to-block: the
+    monitor may wake up early, a sibling may run first, the filler may lag behind ..."""
+    kind, base = arg
+    quiet_shm()
+    out = []
+    fn = exec_death if kind == "death" else exec_raise
+    r0 = fn(dict(base))
+    probs0, res0 = r0[0], r0[1]
+    n = 1
+    if probs0:
+        return dict(executions=1, points=0), [(dict(base), probs0[0])]
+    taken, points = res0["taken"], res0["points"]
+    for i, opts in enumerate(points):
+        for c in range(1, opts):
+            case = dict(base, choices=list(taken[:i]) + [c])
+            r = fn(case)
+            n += 1
+            if r[0] and len(out) < 3:
+                out.append((case, f"{kind} k={base['k']} w={base['w']} assign={base['assign']} with a "
+                                  f"schedule deviation at point {i} (choice {c} of {opts}): {r[0][0]}"))
+    return dict(executions=n, points=len(points)), out
 
 
 REAL_SCRIPT = r"""
@@ -227,6 +254,22 @@ def run(rep):
                      with_fault=st["faulty"], outcomes=st["outcomes"])
             print(f"  {st['kind']} k={st['k']} w={st['w']}: {st['executions']} executions, "
                   f"{st['faulty']} with an effective fault, outcomes {st['outcomes'][:4]}", flush=True)
+        djobs = [("death", dict(kind="death", k=3, w=2, salt=salt, assign=[0, 1, 0], die_worker=1, die_at=1)),
+                 ("death", dict(kind="death", k=4, w=1, salt=salt, assign=[0, 0, 0, 0], die_worker=0, die_at=2)),
+                 ("raise", dict(kind="raise", k=3, w=2, salt=salt, assign=[1, 0, 1],
+                                plan=["ok", "after", "before"]))]
+        if rep.tier == "thorough":
+            djobs += [("death", dict(kind="death", k=4, w=3, salt=salt, assign=[0, 1, 2, 1], die_worker=d_, die_at=1))
+                      for d_ in range(3)]
+        dres = run_tasks(__name__, "deviation_task", djobs)
+        dn = 0
+        for st, viol in dres:
+            rep.violations.extend(viol)
+            dn += st["executions"]
+        rep.nontrivial_n(dn)
+        rep.part("schedule-deviations", executions=dn, systems=len(djobs), bound=1)
+        print(f"  <=1 schedule deviation under faults: {dn} executions", flush=True)
+        execs += dn
         rep.evals(execs)
         real_finish(real[0], real[1], rep)
         real = None
